@@ -27,11 +27,17 @@
   never panics and reads only, in every invariant state. `Init::Recover`: C05
   (`recover_then_history`).
 
-  Remaining (carried by the correspondence): `validate`, `stats_at(order 0)`, `is_free`, and
-  configurations outside `CfgOk` (none in the repository).
+  `validate_never_panics`: all assertions of `validate()` hold in every invariant state without
+  offline trees (fast = exact, every unreserved tree's counter = its free frames, every
+  reservation names a reserved tree and reservation + tree counter = free frames of the tree, as
+  many reserved trees as reservations).
+
+  Remaining (carried by the correspondence): `stats_at(order 0)`, `is_free`, and configurations
+  outside `CfgOk` (none in the repository).
 -/
 import LLFreeV.Proofs.EndToEnd
 import LLFreeV.Proofs.TreeStats
+import LLFreeV.Proofs.Validate
 namespace LLFree.C09
 open LLFree
 
@@ -92,5 +98,12 @@ theorem new_then_history_never_panics (c : Cfg) (ok : CfgOk c) (init : Init) (hi
 theorem tree_stats_never_panics (c : Cfg) (H : Nat → Nat) (ok : CfgOk c) (m : Mem) (inv : UpperInv0 c H m) :
     Runs m (treeStats c) (fun _ m' => m = m') :=
   (treeStats_spec c m ok inv).mono (fun _ _ h => h.1)
+
+/-- `validate()` never panics — all its assertions hold — in every state satisfying the upper
+    invariant in which no tree is offline (with an offline tree its first assertion, fast = exact,
+    is *meant* to fail: C04 `fast_total_exact`) -/
+theorem validate_never_panics (c : Cfg) (ok : CfgOk c) (m : Mem) (inv : UpperInv0 c (fun _ => 0) m) :
+    Runs m (validate c) (fun _ m' => m = m') :=
+  validate_spec c m ok inv
 
 end LLFree.C09
